@@ -12,8 +12,11 @@ mod c03;
 mod c13;
 mod c15;
 mod c16b;
+mod c16c;
 mod c10b;
 mod search_frames;
+mod exec_writes;
+mod engine_loop;
 mod c12b;
 mod c12c;
 mod c06;
@@ -58,8 +61,11 @@ fn main() {
     all.extend(c13::witnesses());
     all.extend(c15::witnesses());
     all.extend(c16b::witnesses());
+    all.extend(c16c::witnesses());
     all.extend(c10b::witnesses());
     all.extend(search_frames::witnesses());
+    all.extend(exec_writes::witnesses());
+    all.extend(engine_loop::witnesses());
     all.extend(c12b::witnesses());
     all.extend(c12c::witnesses());
     all.extend(c06::witnesses());
